@@ -480,6 +480,33 @@ pub fn long_skeletons() -> Vec<Skeleton> {
             // tlang with many variants
             out.push(build_skeleton(id, "", &format!("t-de-{}-h0-hybrid", vars(n)), "", false));
         }
+        // very long lists (buffers of 64 / 128 / 256 bytes, small-vector spill-overs, ...):
+        // 12, 16 and 32 generated elements of one kind
+        for n in [12usize, 16, 32] {
+            let gen = |prefix: &str, len: usize, i: usize| -> String {
+                // distinct alphanumeric subtags of the requested length, not in sorted order
+                let mut x = format!("{}{:0width$}", prefix, (i * 7919) % 10usize.pow((len - prefix.len()) as u32), width = len - prefix.len());
+                x.truncate(len);
+                x
+            };
+            let vs: Vec<String> = (0..n).map(|i| gen("v", 8, i)).collect();
+            let at: Vec<String> = (0..n).map(|i| gen("a", 8, i)).collect();
+            let tg: Vec<String> = (0..n).map(|i| gen("p", 8, i)).collect();
+            out.push(build_skeleton(&format!("{}-{}", id, vs.join("-")), "", "", "", false));
+            out.push(build_skeleton(id, &format!("u-{}", at.join("-")), "", "", false));
+            out.push(build_skeleton(id, &format!("u-ca-{}", at.join("-")), "", "", false));
+            out.push(build_skeleton(id, "", &format!("t-h0-{}", at.join("-")), "", false));
+            out.push(build_skeleton(id, "", &format!("t-de-{}", vs.join("-")), "", false));
+            out.push(build_skeleton(id, "", "", &format!("x-{}", tg.join("-")), false));
+            // many keywords / tfields with distinct keys
+            let kws: Vec<String> = (0..n.min(26)).map(|i| format!("{}{}-{}", (b'a' + (i as u8 * 5) % 26) as char, (b'a' + (i as u8 * 3 + 1) % 26) as char, gen("t", 5, i))).collect();
+            let tfs: Vec<String> = (0..n.min(26)).map(|i| format!("{}{}-{}", (b'a' + (i as u8 * 7) % 26) as char, i % 10, gen("w", 6, i))).collect();
+            let mut seen = std::collections::BTreeSet::new();
+            let kws: Vec<String> = kws.into_iter().filter(|k| seen.insert(k[..2].to_string())).collect();
+            let mut seen = std::collections::BTreeSet::new();
+            let tfs: Vec<String> = tfs.into_iter().filter(|k| seen.insert(k[..2].to_string())).collect();
+            out.push(build_skeleton(id, &format!("u-{}", kws.join("-")), &format!("t-{}", tfs.join("-")), "", false));
+        }
         for (a, b) in [(4usize, 4usize), (5, 6), (8, 8)] {
             let idv = format!("{}-{}", id, vars(a));
             let mut u = us_attrs(a);
@@ -835,6 +862,60 @@ pub fn special_word_strings() -> Vec<Vec<u8>> {
                     x.extend_from_slice(q);
                     out.insert(x);
                 }
+            }
+        }
+    }
+    out.into_iter().collect()
+}
+
+/// The real-world dictionary (mc/data/words.txt, embedded at build time, plus whatever the
+/// caller adds from the repository's CLDR files): each word in every syntactic position.
+pub const WORDS_TXT: &str = include_str!("../../data/words.txt");
+
+pub fn dictionary_words() -> Vec<String> {
+    let mut v: Vec<String> = vec![];
+    for line in WORDS_TXT.lines() {
+        let line = line.split('#').next().unwrap_or("");
+        for w in line.split_whitespace() {
+            v.push(w.to_string());
+        }
+    }
+    v.sort();
+    v.dedup();
+    v
+}
+
+/// inputs for one word: alone, after a language, after language-script(-region), as attribute,
+/// type, tlang, tvalue, private tag, doubled; lower and UPPER case
+pub fn dictionary_inputs(words: &[String]) -> Vec<Vec<u8>> {
+    let mut out = std::collections::BTreeSet::new();
+    for w in words {
+        for w in [w.clone(), w.to_ascii_uppercase(), w.to_ascii_lowercase()] {
+            for f in [
+                format!("{}", w),
+                format!("en-{}", w),
+                format!("{}-valencia", w),
+                format!("{}-Latn-US", w),
+                format!("und-Latn-{}", w),
+                format!("en-US-{}", w),
+                format!("en-US-{}-1996", w),
+                format!("en-1996-{}", w),
+                format!("en-u-{}", w),
+                format!("en-u-{}-ca-gregory", w),
+                format!("en-u-ca-{}", w),
+                format!("en-u-ca-gregory-{}", w),
+                format!("en-t-{}", w),
+                format!("en-t-{}-h0-hybrid", w),
+                format!("en-t-de-{}", w),
+                format!("en-t-h0-{}", w),
+                format!("en-x-{}", w),
+                format!("{}-{}", w, w),
+                format!("en-{}-{}", w, w),
+                format!("{}-u-ca-gregory", w),
+                format!("en-{}-u-ca-gregory-t-de-x-a", w),
+                format!("en_{}", w),
+            ] {
+                out.insert(f.into_bytes());
             }
         }
     }
